@@ -93,7 +93,11 @@ impl Transport {
     async fn list_dir(&self, relpath: &str) -> (r: TResult<Vec<DirEntry>>)
         ensures
             relpath@.len() == 0 ==> (r matches Ok(v) ==> listing_band_ids(v@) == self.root_band_ids()),
+            r is Err ==> self.list_fault(),
     { unimplemented!() }
+
+    // knowledge (positive only): a listing through this transport failed during this operation
+    uninterp spec fn list_fault(&self) -> bool;
 }
 
 //@@ type src/archive.rs | struct Archive
@@ -104,6 +108,12 @@ impl Archive {
     spec fn band_set(&self) -> Set<BandId> { self.transport.root_band_ids() }
     // "BANDTAIL of band id exists" = the version is complete (doc/format.md)
     uninterp spec fn closed(&self, id: BandId) -> bool;
+
+    // DESIGN 4.3 knowledge about THIS operation's storage calls, positive only (each is established only by the shim
+    // of the call that failed): the root listing failed / probing band id's BANDTAIL failed / opening band id failed.
+    spec fn listing_fault(&self) -> bool { self.transport.list_fault() }
+    uninterp spec fn probe_fault(&self, id: BandId) -> bool;
+    uninterp spec fn open_failed(&self, id: BandId) -> bool;
 }
 
 // R7 (lifted verbatim from `Archive::list_band_ids`; `BLOCK_DIR` is the static "d"):
@@ -174,6 +184,7 @@ impl Band {
         ensures
             r matches Ok(b) ==> b.sid() == band_id && b.home() == *archive,
             r matches Err(e) ==> e is Other,
+            r is Err ==> archive.open_failed(band_id),
     { unimplemented!() }
 
     #[verifier::external_body]
@@ -181,11 +192,24 @@ impl Band {
         ensures
             r matches Ok(c) ==> c == self.home().closed(self.sid()),
             r matches Err(e) ==> e is Other,
+            r is Err ==> self.home().probe_fault(self.sid()),
     { unimplemented!() }
 
     #[verifier::external_body]
     fn id(&self) -> (r: BandId)
         ensures r == self.sid(),
+    { unimplemented!() }
+}
+
+impl Archive {
+    // ASSUMED contract of `Archive::band_is_closed` (src/archive.rs: is_file("<band>/BANDTAIL")); PROVED in unit
+    // bandinfo with the same probe as Band::is_closed (LINK select.band_is_closed); the last clause is an event token.
+    #[verifier::external_body]
+    async fn band_is_closed(&self, band_id: BandId) -> (r: Result<bool>)
+        ensures
+            r matches Ok(c) ==> c == self.closed(band_id),
+            r matches Err(e) ==> e is Other,
+            r is Err ==> self.probe_fault(band_id),
     { unimplemented!() }
 }
 
